@@ -1,6 +1,7 @@
 import Rfsm.Audit
 import Rfsm.Model.ReaderSpec
 import Rfsm.Proofs.ReaderTop
+import Rfsm.Proofs.ReaderStatesSim
 /-!
 # C04 — The XML reader builds a model that mirrors the SCXML document
 
@@ -69,6 +70,76 @@ theorem C04_content (b : Block) (h : supported.supportedB b = true) :
   rw [dBlock, hreg]
   exact this
 #assert_axioms C04_content
+
+/-! ## (c) state nesting and document order, independent of forward references -/
+
+/-- **Declaration theorem.**  `get_or_create_state_with_attributes` on the view of the state table:
+the declared state gets the doc id of the declaration and the declaring state as parent — whether
+its name had been referenced before (forward reference: the entry exists already, with a smaller
+id) or not — and no other state loses its name, id, parent or doc id. -/
+theorem C04_declaration (vs : List V) (h : IdsOk vs) (n : Str) (p d : Nat) (hp : p ≠ 0) :
+    Ext [n] vs (vdecl vs n p d).2 ∧
+    ∃ v, vfind (vdecl vs n p d).2 n = some (vdecl vs n p d).1 ∧
+      vget (vdecl vs n p d).2 (vdecl vs n p d).1 = some v ∧ v.name = n ∧ v.parent = p ∧ v.docId = d := by
+  obtain ⟨h1, _, h3⟩ := vdecl_spec h n p d hp
+  exact ⟨h1, h3⟩
+#assert_axioms C04_declaration
+
+/-- the reader state after `<scxml>` -/
+def σscxml : RS :=
+  match run [.start t_scxml []] {} with
+  | .ok σ => σ
+  | .error _ => {}
+
+theorem σscxml_facts_aux : run [.start t_scxml []] {} = .ok σscxml ∧ σscxml.raw = none ∧
+    σscxml.cur.tag = .scxml ∧ σscxml.cur.state = 1 ∧ σscxml.nextId = 1 ∧ σscxml.nextDoc = 2 ∧
+    view σscxml.fsm = [⟨1, [95, 95, 105, 100, 49], 0, 1, []⟩] := by
+  have h : (match run [.start t_scxml []] {} with
+    | .ok _ => true
+    | .error _ => false) = true := by decide +kernel
+  refine ⟨?_, by decide +kernel, by decide +kernel, by decide +kernel, by decide +kernel, by decide +kernel,
+    by decide +kernel⟩
+  unfold σscxml
+  cases hr : run [.start t_scxml []] {} with
+  | ok σ => rfl
+  | error e => rw [hr] at h; simp at h
+
+/-- **State nesting and document order.**  For every forest of states with pairwise distinct ids,
+whatever their transitions refer to (states declared later, earlier, or never), reading
+`<scxml>` followed by the forest succeeds, and in the resulting table every state of the forest
+(`GoodF`) has as `parent` the state it is nested in (the `<scxml>` pseudo root, id 1, for the
+top-level ones) and as `doc_id` the number of its position in the document (`<scxml>` = 1, then
+one id per `<state>` and per `<transition>` in SAX order), so document order is pre-order and does
+not depend on the order in which state ids were allocated. -/
+theorem C04_state_nesting (ts : List ST) (hnd : (namesF ts).Nodup) :
+    ∃ σ', run ([.start t_scxml []] ++ saxSF ts) {} = .ok σ' ∧ GoodF (view σ'.fsm) ts 1 2 ∧
+      σ'.nextDoc = 2 + sizeF ts := by
+  obtain ⟨hrun, hraw, htag, hcur, hnid, hdoc, hview⟩ := σscxml_facts_aux
+  have hok : IdsOk (view σscxml.fsm) := by
+    rw [hview]
+    intro k v hk
+    cases k with
+    | zero => simp at hk; subst hk; rfl
+    | succ k => simp at hk
+  have hSR : SR σscxml 1 :=
+    ⟨hraw, Or.inl htag, hcur, by decide, hok, by rw [hview]; decide, by rw [hnid]; decide⟩
+  obtain ⟨σ', hs, _, _, _, _, hv, hd⟩ := simF ts σscxml 1 hSR hnd
+  obtain ⟨_, hg⟩ := amF_spec ts 1 (view σscxml.fsm) σscxml.nextDoc hok (by decide) hnd
+  refine ⟨σ', by rw [run_append, hrun]; exact hs, ?_, by rw [hd, hdoc]⟩
+  rw [hv, hdoc] at *
+  exact hg
+#assert_axioms C04_state_nesting
+
+/-- non-vacuity: a forest with a forward reference (`a` targets `c`, declared later inside `b`) and a
+backward one satisfies the hypothesis; the state ids are allocated in reference order (a=2, c=3,
+b=4) while the doc ids follow the document (a=2, b=4, c=5) — kernel evaluation of the model -/
+example : (namesF [.node [97] (some [99]) [], .node [98] none [.node [99] (some [97]) []]]).Nodup := by decide
+example : (match read ([.start t_scxml []] ++ saxSF [.node [97] (some [99]) [], .node [98] none [.node [99] (some [97]) []]] ++
+      [.stop t_scxml]) with
+    | .ok f => f.states.map fun s => s.name ++ [0, s.id, s.parent, s.docId] ++ s.states
+    | .error _ => []) =
+    [[95, 95, 105, 100, 49, 0, 1, 0, 1, 2, 4], [97, 0, 2, 1, 2], [99, 0, 3, 4, 5], [98, 0, 4, 1, 4, 3]] := by
+  decide +kernel
 
 /-! ## the unchanged reader violates the property: four counterexamples -/
 
